@@ -3,7 +3,7 @@
 P=$1; ID=$2; TIER=${3:-quick}
 cd /repo || exit 2
 git diff --quiet || { echo "repo dirty"; exit 2; }
-git apply --3way "$P" 2>/dev/null || git apply "$P" || { echo "patch does not apply"; git checkout -- . ; git reset -q; exit 2; }
+git apply --3way "$P" 2>/dev/null || git apply "$P" || { echo "patch does not apply"; git reset -q --hard HEAD; exit 2; }
 git reset -q
 cd /verif && ./check $ID --tier $TIER > /tmp/try_seed.$$.out 2>&1; rc=$?
 grep -E "^(VIOLATION|KNOWN|C[0-9]+ tier|MACHINERY)" /tmp/try_seed.$$.out | cut -c1-330 | head -8
